@@ -1,15 +1,25 @@
 (* Correspondence for C07: the implementation's per-call observations (which live values changed, which roots
-   share a mutable object, do repeated calls agree, do threads agree with their sequential runs) versus the
-   store model (Model/Store.v) run on the same resolved history, and versus the property itself. *)
+   share a mutable object, do repeated calls agree, do threads agree with their sequential runs, which shared
+   containers does each call of a thread read and write) versus the store model (Model/Store.v) run on the same
+   resolved history, and versus the property itself. *)
 From Coq Require Import List Ascii String Bool Arith.
 From Verif Require Import Base.Result Base.Str Model.Store Corr.Common.
 Import ListNotations.
 Open Scope list_scope.
 
-Record stepobs := { so_op : op; so_changed : list owner; so_sharing : list (owner * owner) }.
-(* c_thread: Some ok for a thread case (several histories on one shared domain, ok = every thread's results equal
-   its sequential run and the shared domain is unchanged) *)
-Record case := { c_cfg : cfg; c_steps : list stepobs; c_repeat_ok : bool; c_thread : option bool }.
+(* one model operation of a history; a library call that the model renders as several operations (parse_plan = one
+   trajectory step per action) is observed after the last of them only (so_observed) *)
+Record stepobs := { so_op : op; so_observed : bool; so_changed : list owner; so_sharing : list (owner * owner) }.
+
+(* one call of a thread under the deterministic scheduler: the shared cells it was seen to read / write (union over
+   all schedules run) *)
+Record tstep := { ts_op : op; ts_reads : list loc; ts_writes : list loc }.
+(* t_ok: every thread's results equal its sequential run in every schedule, the shared domain is unchanged and
+   DEFAULT_TYPES did not leak; t_prefix: the operations that built the shared values; t_sched: one recorded schedule
+   (events on shared cells, consecutive repetitions collapsed) *)
+Record tobs := { t_ok : bool; t_prefix : list op; t_threads : list (list tstep); t_sched : list (nat * event) }.
+
+Record case := { c_cfg : cfg; c_steps : list stepobs; c_repeat_ok : bool; c_thread : option tobs }.
 
 Definition pair_eqb (p q : owner * owner) : bool :=
   owner_eqb (fst p) (fst q) && owner_eqb (snd p) (snd q).
@@ -17,15 +27,25 @@ Definition subset {A} (eqb : A -> A -> bool) (a b : list A) : bool := forallb (f
 
 Definition value_pair (p : owner * owner) : bool := protected (fst p) && protected (snd p).
 
-(* the model's predictions, step by step *)
-Fixpoint predict (c : cfg) (m : mstate) (steps : list stepobs) : list (list owner * list (owner * owner)) :=
+(* the model's predictions for the observed steps; `pend` accumulates the values the unobserved operations of a
+   composite call may have changed *)
+Fixpoint predict (c : cfg) (m : mstate) (pend : list owner) (steps : list stepobs)
+  : list (list owner * list (owner * owner)) :=
   match steps with
   | [] => []
-  | s :: r => let '(m', evs) := step c m (so_op s) in (may_change m evs, sharing m') :: predict c m' r
+  | s :: r =>
+      let '(m', evs) := step c m (so_op s) in
+      let ch := pend ++ may_change m evs in
+      if so_observed s then (ch, sharing m') :: predict c m' [] r else predict c m' ch r
   end.
+Definition observed (steps : list stepobs) : list stepobs := filter so_observed steps.
 
 (* D17 is modelled exactly; the unrepaired variants of D15/D16/D18 over-approximate (values are abstract) *)
 Definition exact (c : cfg) : bool := writes_fixed c.
+
+(* every deviation the implementation shows at this step is one the model predicts *)
+Definition step_explained (s : stepobs) (p : list owner * list (owner * owner)) : bool :=
+  subset owner_eqb (so_changed s) (fst p) && subset pair_eqb (filter value_pair (so_sharing s)) (snd p).
 
 Definition step_agree (c : cfg) (s : stepobs) (p : list owner * list (owner * owner)) : bool :=
   subset owner_eqb (so_changed s) (fst p) && subset pair_eqb (so_sharing s) (snd p) &&
@@ -38,22 +58,62 @@ Fixpoint all2 {A B} (f : A -> B -> bool) (a : list A) (b : list B) : bool :=
   | _, _ => false
   end.
 
+(* ---------------------------------------------------------------- threads *)
+Definition mrun (c : cfg) (h : list op) (m : mstate) : mstate := fold_left (fun m p => fst (step c m p)) h m.
+Definition shared_loc (m0 : mstate) (l : loc) : bool :=
+  match fst l with
+  | ODom d => Nat.ltb d (List.length (doms m0))
+  | OMod => true
+  | _ => false
+  end.
+(* cells modelled individually: Domain.types (index 0) and the signatures (index >= 2); index 1 lumps together every
+   other container of the domain, whose reads are not compared *)
+Definition individual (l : loc) : bool := negb (Nat.eqb (snd l) 1).
+
+Fixpoint thread_agree (c : cfg) (m0 m : mstate) (ts : list tstep) : bool :=
+  match ts with
+  | [] => true
+  | s :: r =>
+      let '(m', evs) := step c m (ts_op s) in
+      let pw := filter (shared_loc m0) (writes evs) in
+      let pr := filter (shared_loc m0) (reads evs) in
+      subset loc_eqb (ts_writes s) pw && (negb (exact c) || subset loc_eqb pw (ts_writes s)) &&
+      subset loc_eqb (filter individual (ts_reads s)) pr &&
+      thread_agree c m0 m' r
+  end.
+Definition threads_agree (c : cfg) (t : tobs) : bool :=
+  let m0 := mrun c (t_prefix t) init in forallb (thread_agree c m0 m0) (t_threads t).
+Definition threads_clean (t : tobs) : bool :=
+  t_ok t && no_writes (t_sched t) &&
+  forallb (forallb (fun s => match ts_writes s with [] => true | _ => false end)) (t_threads t).
+Definition thread_ok (cs : case) : bool := match c_thread cs with Some t => threads_clean t | None => true end.
+
+(* ---------------------------------------------------------------- verdict *)
 Definition model_clean (c : cfg) (cs : case) : bool :=
   forallb (fun p => match fst p with [] => true | _ => false end && negb (existsb value_pair (snd p)))
-          (predict c init (c_steps cs)).
+          (predict c init [] (c_steps cs)).
 
 Definition impl_clean (cs : case) : bool :=
   forallb (fun s => match so_changed s with [] => true | _ => false end && negb (existsb value_pair (so_sharing s)))
-          (c_steps cs)
-  && c_repeat_ok cs && match c_thread cs with Some b => b | None => true end.
+          (observed (c_steps cs))
+  && c_repeat_ok cs && thread_ok cs.
+
+(* the implementation's deviations are all among those the model of this configuration (i.e. the open findings)
+   predicts: only then may a finding class excuse the case *)
+Definition explained (c : cfg) (cs : case) : bool :=
+  all2 step_explained (observed (c_steps cs)) (predict c init [] (c_steps cs))
+  && (negb (exact c) || (c_repeat_ok cs && thread_ok cs)).
 
 Definition judge (cs : case) : verdict :=
   let c := c_cfg cs in
-  {| v_agree := all2 (step_agree c) (c_steps cs) (predict c init (c_steps cs))
-                && (negb (exact c) || (c_repeat_ok cs && match c_thread cs with Some b => b | None => true end));
+  {| v_agree := all2 (step_agree c) (observed (c_steps cs)) (predict c init [] (c_steps cs))
+                && (negb (exact c) || (c_repeat_ok cs && thread_ok cs))
+                && match c_thread cs with Some t => threads_agree c t | None => true end;
      v_ok := impl_clean cs;
-     v_known := negb (model_clean c cs) |}.
+     v_known := negb (model_clean c cs) && explained c cs |}.
 
 Definition run (cases : list case) : string := summary judge cases.
 
-Definition explain (cs : case) := (predict (c_cfg cs) init (c_steps cs), model_clean (c_cfg cs) cs, impl_clean cs).
+Definition explain (cs : case) :=
+  (predict (c_cfg cs) init [] (c_steps cs), model_clean (c_cfg cs) cs, impl_clean cs, explained (c_cfg cs) cs,
+   match c_thread cs with Some t => (threads_agree (c_cfg cs) t, threads_clean t) | None => (true, true) end).
